@@ -172,7 +172,7 @@ func gossipChild(a gossipArg) (*syncSessResult, error) {
 		want := b.Steps[len(b.Steps)-1].Has
 		got := false
 		if want {
-			got = waitHeight(h+1, 8*time.Second)
+			got = waitHeight(h+1, 20*time.Second)
 		} else {
 			// long enough for the arrival time-out, the request and the import of whatever came back
 			got = waitHeight(h+1, 2500*time.Millisecond)
@@ -181,7 +181,7 @@ func gossipChild(a gossipArg) (*syncSessResult, error) {
 		head := n.Frontier().Hash
 		switch {
 		case got != want && want:
-			mis("honest-gossip-not-imported-"+ann, "the genuine next momentum reached the node (%s) and is not imported within 8 s", ann)
+			mis("honest-gossip-not-imported-"+ann, "the genuine next momentum reached the node (%s) and is not imported within 20 s", ann)
 		case got != want:
 			mis("imported-without-the-genuine-momentum-"+ann, "the node moved to height %d although the genuine momentum never reached it", n.Height())
 		}
@@ -200,7 +200,7 @@ func gossipChild(a gossipArg) (*syncSessResult, error) {
 				continue
 			}
 			if n.Height() < src.Height() {
-				okc = waitHeight(src.Height(), 30*time.Second)
+				okc = waitHeight(src.Height(), 45*time.Second)
 			} else {
 				okc = true
 			}
@@ -210,7 +210,7 @@ func gossipChild(a gossipArg) (*syncSessResult, error) {
 				}
 				node.Clock.Set(src.Frontier().Timestamp.Add(time.Minute))
 				good.send(7, wire(src.Height()))
-				okc = waitHeight(src.Height(), 10*time.Second)
+				okc = waitHeight(src.Height(), 20*time.Second)
 			}
 			good.close()
 			good.ended(3 * time.Second)
